@@ -14,6 +14,9 @@ use std::mem;
 use std::num::NonZeroUsize;
 use std::slice;
 use std::sync::atomic::Ordering;
+#[cfg(feature = "verif")]
+use crate::verif::sync::Mutex;
+#[cfg(not(feature = "verif"))]
 use std::sync::Mutex;
 
 type ChanceIter<'a, 'b> = Zip<slice::Iter<'a, f64>, slice::Iter<'b, Node>>;
@@ -395,6 +398,8 @@ fn solve_generic_multi(
         let mut work = Vec::with_capacity(target.get());
         let mut payoffs = HashMap::with_capacity(target.get());
         for it in 1..=iter {
+            #[cfg(feature = "verif")]
+            crate::verif::sync::phase();
             // compute threadding threshold
             let [player_one, player_two] = &mut player_infosets;
             thread_threshold(
